@@ -1,19 +1,5 @@
-import RV.Props.C18
-import RV.Props.C19
-import RV.Props.C20
-import RV.Props.C03
-import RV.Props.C09
-import RV.Props.C10
-import RV.Props.C16
-import RV.Props.C12
-import RV.Props.C11
-import RV.Props.C01
-import RV.Props.C02
-import RV.Props.C04
-import RV.Props.C07
-import RV.Props.C14
-import RV.Props.C15
-import RV.Props.C08
-import RV.Props.C13
-import RV.Props.C17
-import RV.Props.C03Cache
+/-!
+Library root.  The modules of this library are built individually (`globs = ["RV.+"]` in
+lakefile.toml): `RV.Props.Cxx` for property Cxx, with its proofs in `RV/Proofs`, the models in
+`RV/Model` and the kernels regenerated from /repo in `RV/Gen`.
+-/
